@@ -142,13 +142,13 @@ func (b *backend) Reset() {
 
 // proxyPair is one running ClusterConnection with both backends and clients to both proxy servers.
 type proxyPair struct {
-	Local, Remote *backend          // stand-ins for the local / remote Temporal cluster
+	Local, Remote *backend // stand-ins for the local / remote Temporal cluster
 	CC            *proxy.ClusterConnection
 	Cancel        context.CancelFunc
-	OutboundAddr  string            // where the local cluster connects (outbound server)
-	InboundAddr   string            // where the remote cluster connects (inbound server)
-	FromLocal     *grpc.ClientConn  // a caller on the local side  -> outbound server -> Remote backend
-	FromRemote    *grpc.ClientConn  // a caller on the remote side -> inbound server  -> Local backend
+	OutboundAddr  string           // where the local cluster connects (outbound server)
+	InboundAddr   string           // where the remote cluster connects (inbound server)
+	FromLocal     *grpc.ClientConn // a caller on the local side  -> outbound server -> Remote backend
+	FromRemote    *grpc.ClientConn // a caller on the remote side -> inbound server  -> Local backend
 }
 
 var listenRe = regexp.MustCompile(`listening on ([0-9.:]+)\.`)
